@@ -102,6 +102,7 @@ def reset_globals():
     sym.reset_sums()
     sym.reset_compress()
     sym.DEPTH[0] = 0
+    del sym.SCOPE[:]
 
 
 class PathRun:
